@@ -93,6 +93,16 @@ CLAIMED = {
         note=("trusts CrossHair's models of int/str/dict and z3; no user yaml files, CUDA/MPS unavailable; histories "
               "beyond the bound and nested update_defaults with clashing '-'/'_' spellings are outside the claim"),
         design_ref="DESIGN.md §5 C19"),
+    "C20": dict(
+        engine="S",
+        technique="term-valued symbolic execution of the real interval/stretch/CustomNormalization NumPy code; transcendental functions as uninterpreted functions with instantiated monotonicity/inverse laws; z3 decides range, monotonicity, limit and inverse claims",
+        text=("bounded model checking by symbolic execution over all limits vmin < vmax, data values, stretch parameters: for each "
+              "of 4 interval kinds x 4 stretch kinds the normalised values lie in [0,1], are monotone, map the limits to 0 and 1; "
+              "each of the 6 stretch/inverse pairs composes to the identity on [0,1]; every query comes back unsat"),
+        note=("real arithmetic; log/exp/sinh/asinh/x^p are uninterpreted with only their order/inverse laws (sound for unsat, "
+              "sat answers are filtered by replay on real NumPy); np.quantile is a contract stub; NaN/inf handling is "
+              "exercised concretely; degenerate intervals are outside"),
+        design_ref="DESIGN.md §5 C20"),
 }
 
 NOT_APPLICABLE = {
